@@ -26,7 +26,7 @@ o=sys.argv[1]
 sw=open(o+'/suite_with.txt').read()
 bad=[l.strip() for l in sw.splitlines() if l.startswith('   ')]
 # known to fail intermittently at the pinned commit itself when the machine is loaded (5-15 ms timing margins)
-flaky=('connection_churn','statistical_fairness','test_concurrent_term_and_op','pyzmq','manual_framing','test_waitgroup_add_done_wait','shutdown_race')
+flaky=('connection_churn','statistical_fairness','test_concurrent_term_and_op','pyzmq','manual_framing','test_waitgroup_add_done_wait','shutdown_race','test_router_router_tcp_forwarding','test_regulator_over_lifespan_bypass')
 real_bad=[b for b in bad if not any(f in b for f in flaky)]
 # a stable test that fails in the loaded full run but passes 3/3 on its own is a load flake
 import subprocess, os
